@@ -581,6 +581,9 @@ class Verifier:
                     val = ip.call_pamqp(fn, arglist, {})
                     outcome = ('return', val)
                 except Raised as r:
+                    if r.cls in (NameError, UnboundLocalError):
+                        # not something the repository's tests would let through: an annotation no longer binds
+                        raise OutOfSubset('%s raised: a sidecar annotation probably no longer matches the code' % r.cls.__name__)
                     outcome = ('raise', r.cls)
             except (Infeasible, CutPath):
                 outcome = None
